@@ -153,6 +153,8 @@ def elem_of(I, st, itv):
 
 def mk_iter(elem, src=None):
     f = {"[*]": elem, "#iter": V("Const(iter)")}
+    if src is not None and "#nonempty" in src.fields:
+        f["#first"] = V("Const(first)")      # the first next() of this iterator cannot be None
     if src is not None and "#uniq" in src.fields:
         f["#uniq"] = src.fields["#uniq"]     # elements of a de-duplicated collection stay distinct
     return Val(frozenset(), f)
@@ -478,6 +480,10 @@ def iterators(I, st, frame, t, name, self_ty, tys, trait, method, args, ev):
         if "[*]" not in itv.fields:
             # range-like or unknown iterator object
             return I.derive(st, [itv], "range")
+        if "#first" in itv.fields and method == "next" and I.refs_of(a0):
+            nit = Val(itv.atoms, {k: x for k, x in itv.fields.items() if k != "#first"})
+            I.write_through(st, a0, nit, strong=True)
+            return with_tag(itv.fields["[*]"], "#v:" + OPT, V("Const(Some)"))
         return itv.fields["[*]"]
     itv = a0
     if I.refs_of(a0) and "[*]" not in a0.fields:
